@@ -2,6 +2,7 @@ import Std.Data.HashMap
 import Driver.Common
 import Driver.OpsBits
 import Driver.OpsCode
+import Driver.OpsDist
 import Driver.OpsMask
 import Driver.OpsNoise
 open Panqec
@@ -11,7 +12,7 @@ open Panqec
     (`none` = not my op); the first that answers wins. -/
 
 def handlers : List (List String → Option String) :=
-  [Drv.handleBits, Drv.handleCode, Drv.handleMask, Drv.handleNoise]
+  [Drv.handleBits, Drv.handleCode, Drv.handleDist, Drv.handleMask, Drv.handleNoise]
 
 def handleToks (toks : List String) : String :=
   match handlers.findSome? (fun h => h toks) with
